@@ -25,10 +25,16 @@ LANES = 4
 
 def configs(ctx):
     """[(key, features, doc target key, harness target key)]"""
-    out = [(tg.CFG_TS[0], tg.CFG_TS[1], None, None), (tg.CFG_NOTS[0], tg.CFG_NOTS[1], None, None)]
+    out = [(tg.CFG_TS[0], tg.CFG_TS[1], None, None), (tg.CFG_NOTS[0], tg.CFG_NOTS[1], None, None),
+           # one backend only (default-features = false): what is thread-safe must not depend on which backends
+           # are compiled in
+           ("ts-sqlite-only", ["no-default", "thread-safe", "backend-sqlite"], "lane0", "lane0")]
     if ctx.quick:
         return out
-    extra = [("ts-none", ["thread-safe"]), ("nots-none", [])]
+    extra = [("ts-none", ["thread-safe"]), ("nots-none", []),
+             ("ts-mysql-only", ["no-default", "thread-safe", "backend-mysql"]),
+             ("ts-postgres-only", ["no-default", "thread-safe", "backend-postgres", "derive"]),
+             ("ts-no-backend", ["no-default", "thread-safe"])]
     for f in tg.VALUE_FEATURES:
         extra.append(("ts-" + SHORT[f], ["thread-safe", f]))
     extra.append(("ts-alltypes", ["thread-safe", "all-types"]))
@@ -44,11 +50,16 @@ def configs(ctx):
     return out
 
 
+def wants_demo(feats):
+    """the cross-thread demonstration renders with SqliteQueryBuilder: it needs that backend compiled in"""
+    return "thread-safe" in feats and ("no-default" not in feats or "backend-sqlite" in feats)
+
+
 def eval_config(cfg, workdir):
     """rustdoc -> graph -> harness (rustc's table) for one configuration"""
     key, feats, doc_t, har_t = cfg
     g = tg.load_graph(key, feats, target_key=doc_t)
-    table, demo = tg.harness_build(g, target_key=har_t, demo=("thread-safe" in feats), lock_ready=True)
+    table, demo = tg.harness_build(g, target_key=har_t, demo=wants_demo(feats), lock_ready=True)
     return g, table, demo
 
 
@@ -140,7 +151,7 @@ def run(ctx):
         if sorted(table) != scope:
             errors.append((key, "harness printed %d rows for %d public types" % (len(table), len(scope))))
             continue
-        if ts and not (demo and demo.endswith("| true")):
+        if ts and wants_demo(g.feats) and not (demo and demo.endswith("| true")):
             errors.append((key, "cross-thread demonstration did not run: %r" % demo))
         special = tg.reaches_special(g)
         d = {"features": g.feats, "types": len(g.nodes), "public_nameable": len(scope),
